@@ -18,6 +18,17 @@ What the engine does, independent of the property:
     the continuation;
   * `for` is emitted as `fold_left` over the tuple of the loop-carried variables (found by
     translating the body once); a body that may raise carries an `ok_` flag and stops;
+  * behaviour-preserving rewrites that are followed (the emitted term comes out equal or provably
+    equal, the Bridge proofs are semantic): helpers extracted into `self._helper(...)` of the class /
+    a base class / a module-level function are INLINED at the call (parameters bound by name,
+    defaults from the signature, fresh prefix for the helper's locals, object state shared; the body
+    must be straight-line code, loops and non-returning ifs, optionally ending in `return <expr>`,
+    also a tuple); guard clauses (`if c: return ..` + rest == if/else), `if c: continue` in a loop,
+    bare `return` in a state-changing method; conditional expression vs if/else assignment;
+    temporaries introduced or inlined; loops vs comprehensions / generator expressions;
+    `for x in (<constants>)` is unrolled (a dispatch loop is an if-chain); `getattr(obj, <constant
+    name>)(..)` is `obj.<name>(..)`; names bound to boolean / string constants are propagated
+    (`reverse=inverse` with inverse=True); truthiness of an integer (`if not len(y)`);
   * exceptions: the text of "what the function evaluates to when an exception propagates from here"
     is a stack (`self.failtext`): function level, loop level (accumulator with ok_ = false),
     `with` + try/finally level (run the finally part, then the outer text).
